@@ -1,9 +1,9 @@
 /-
-Skiplist, single-level fragment: how a chain changes under the three store updates the operations
+Skiplist: how a chain changes under the three store updates the operations
 perform — a node linked in after the predecessor (`chain_insert`), a node rewritten in place
 (`chain_update`: replace, notifier add/del), a node spliced out (`chain_erase`).
 -/
-import QbVerif.Lemmas.SlInv
+import QbVerif.Lemmas.SlmInv
 
 namespace QbVerif.Skiplist
 open QbVerif.Map
@@ -34,10 +34,10 @@ theorem next0_eq {s s' : SL} {x : NodeId} (hn : s'.nodes x = s.nodes x)
 
 theorem NodeOk.frame {s s' : SL} {i : NodeId} {e : Entry} (h : NodeOk s i e) (hn : s'.nodes i = s.nodes i)
     (hf : (s'.fwds (fwdOf s i)).isSome) : NodeOk s' i e := by
-  obtain ⟨f, a, h1, h2⟩ := h
+  obtain ⟨lv, rc, f, a, hrc, hl1, hl2, h1, h2⟩ := h
   simp only [fwdOf, h1] at hf
   obtain ⟨a', ha'⟩ := Option.isSome_iff_exists.1 hf
-  exact ⟨f, a', by rw [hn, h1], ha'⟩
+  exact ⟨lv, rc, f, a', hrc, hl1, hl2, by rw [hn, h1], ha'⟩
 
 /-- ids after linking `new` in behind the predecessor of `k` -/
 def insIds (new : NodeId) (k : Key) : List NodeId → List Entry → List NodeId
@@ -56,77 +56,6 @@ theorem insIds_perm {new : NodeId} {k : Key} : ∀ {ids : List NodeId} {es : Lis
   | [], _ :: _, h => by simp at h
   | _ :: _, [], h => by simp at h
 
-/-- what the three store updates of "link `new` in behind `p`" leave of the old state -/
-structure Linked (s s' : SL) (p new : NodeId) (nf : FwdId) (e' : Entry) : Prop where
-  nodes : ∀ j, j ≠ new → s'.nodes j = s.nodes j
-  newNode : s'.nodes new = some ⟨some e'.key, e'.val, 1, 1, nf, e'.notifs⟩
-  fwds : ∀ f, f ≠ nf → f ≠ fwdOf s p → s'.fwds f = s.fwds f
-  newArr : ∃ an, s'.fwds nf = some an ∧ an 0 = next0 s p
-  predArr : ∃ ap, s'.fwds (fwdOf s p) = some ap ∧ ap 0 = some new
-  ne : nf ≠ fwdOf s p
-
-theorem chain_insert {s s' : SL} {new : NodeId} {nf : FwdId} {e' : Entry} : ∀ {es : List Entry} {ids : List NodeId}
-    {x : NodeId}, Chain s x ids es → XOk s x →
-    Linked s s' (predOf e'.key x ids es) new nf e' → (∀ e ∈ es, e.key ≠ e'.key) →
-    (∀ i ∈ x :: ids, ∀ j ∈ x :: ids, fwdOf s i = fwdOf s j → i = j) →
-    (∀ j ∈ x :: ids, j ≠ new ∧ fwdOf s j ≠ nf) → (x :: ids).Nodup →
-    Chain s' x (insIds new e'.key ids es) (insertEntry e' es)
-  | [], [], x, h, hx, L, _, _, hfr, _ => by
-    have h0 : next0 s x = none := h
-    simp only [predOf] at L
-    obtain ⟨an, han, han0⟩ := L.newArr
-    obtain ⟨ap, hap, hap0⟩ := L.predArr
-    obtain ⟨n, a, hn, ha⟩ := hx
-    have hx' : s'.nodes x = some n := by rw [L.nodes x (hfr x (by simp)).1, hn]
-    have hfx : fwdOf s x = n.fwd := by simp [fwdOf, hn]
-    refine ⟨?_, ⟨nf, an, L.newNode, han⟩, ?_⟩
-    · simp only [next0, hx']; rw [← hfx, hap]; exact hap0
-    · show next0 s' new = none
-      simp only [next0, L.newNode, han]; rw [han0, h0]
-  | e :: es, i :: ids, x, h, hx, L, hk, hinj, hfr, hnd => by
-    obtain ⟨h1, hi, h2⟩ := h
-    obtain ⟨n, a, hn, ha⟩ := hx
-    have hx' : s'.nodes x = some n := by rw [L.nodes x (hfr x (by simp)).1, hn]
-    have hfx : fwdOf s x = n.fwd := by simp [fwdOf, hn]
-    have hek : e.key ≠ e'.key := hk e (by simp)
-    rw [insertEntry_walk]
-    simp only [insIds, predOf] at L ⊢
-    by_cases hlt : Key.lt e.key e'.key = true
-    · simp only [hlt, if_true] at L ⊢
-      have hp := predOf_mem e'.key i ids es
-      have hxp : fwdOf s x ≠ fwdOf s (predOf e'.key i ids es) := by
-        intro heq
-        have := hinj x (by simp) _ (List.mem_cons_of_mem _ hp) heq
-        exact (List.nodup_cons.1 hnd).1 (this ▸ hp)
-      refine ⟨?_, ?_, ?_⟩
-      · rw [next0_eq (L.nodes x (hfr x (by simp)).1) (L.fwds _ (hfr x (by simp)).2 hxp), h1]
-      · exact hi.frame (L.nodes i (hfr i (by simp)).1) (by
-          by_cases hip : fwdOf s i = fwdOf s (predOf e'.key i ids es)
-          · obtain ⟨ap, hap, _⟩ := L.predArr; rw [hip, hap]; rfl
-          · rw [L.fwds _ (hfr i (by simp)).2 hip]
-            obtain ⟨f, a, h1', h2'⟩ := hi
-            simp [fwdOf, h1', h2'])
-      · exact chain_insert h2 hi.xok L (fun e he => hk e (List.mem_cons_of_mem _ he))
-          (fun a ha b hb => hinj a (List.mem_cons_of_mem _ ha) b (List.mem_cons_of_mem _ hb))
-          (fun j hj => hfr j (List.mem_cons_of_mem _ hj)) (List.nodup_cons.1 hnd).2
-    · have hlt' : Key.lt e.key e'.key = false := by simpa using hlt
-      simp only [hlt', hek, Bool.false_eq_true, if_false] at L ⊢
-      obtain ⟨an, han, han0⟩ := L.newArr
-      obtain ⟨ap, hap, hap0⟩ := L.predArr
-      refine ⟨?_, ⟨nf, an, L.newNode, han⟩, ?_⟩
-      · simp only [next0, hx']; rw [← hfx, hap]; exact hap0
-      · have hnn : next0 s' new = next0 s x := by simp only [next0, L.newNode, han]; exact han0
-        refine Chain.retarget (i := x) (s := s) ⟨h1, hi, h2⟩ hnn ?_
-        intro j hj
-        have hjx : fwdOf s j ≠ fwdOf s x := by
-          intro heq
-          have hjeq := hinj j (List.mem_cons_of_mem _ hj) x (by simp) heq
-          exact (List.nodup_cons.1 hnd).1 (hjeq ▸ hj)
-        exact ⟨L.nodes j (hfr j (List.mem_cons_of_mem _ hj)).1,
-          L.fwds _ (hfr j (List.mem_cons_of_mem _ hj)).2 hjx⟩
-  | [], _ :: _, _, h, _, _, _, _, _, _ => by cases h
-  | _ :: _, [], _, h, _, _, _, _, _, _ => by cases h
-
 /-- moving the start of a chain, fine-grained -/
 theorem Chain.retarget2 {s s' : SL} {x i : NodeId} : ∀ {ids es}, Chain s i ids es → next0 s' x = next0 s i →
     (∀ j ∈ ids, next0 s' j = next0 s j) → (∀ j ∈ ids, ∀ e, NodeOk s j e → NodeOk s' j e) → Chain s' x ids es
@@ -139,6 +68,50 @@ theorem Chain.retarget2 {s s' : SL} {x i : NodeId} : ∀ {ids es}, Chain s i ids
       (fun a ha => ho a (List.mem_cons_of_mem _ ha))⟩
   | [], _ :: _, h, _, _, _ => by cases h
   | _ :: _, [], h, _, _, _ => by cases h
+
+/-- what "link `new` in behind `p`" does to the level-0 structure -/
+structure Linked (s s' : SL) (M : List NodeId) (p new : NodeId) (e' : Entry) : Prop where
+  newOk : NodeOk s' new e'
+  newNext : next0 s' new = next0 s p
+  predNext : next0 s' p = some new
+  others : ∀ j ∈ M, j ≠ p → j ≠ new → next0 s' j = next0 s j
+  nodes : ∀ j ∈ M, ∀ e, j ≠ new → NodeOk s j e → NodeOk s' j e
+
+theorem chain_insert {s s' : SL} {new : NodeId} {e' : Entry} {M : List NodeId} : ∀ {es : List Entry} {ids : List NodeId}
+    {x : NodeId}, Chain s x ids es →
+    Linked s s' M (predOf e'.key x ids es) new e' → (∀ e ∈ es, e.key ≠ e'.key) →
+    (∀ j ∈ x :: ids, j ≠ new) → (x :: ids).Nodup → (∀ j ∈ x :: ids, j ∈ M) →
+    Chain s' x (insIds new e'.key ids es) (insertEntry e' es)
+  | [], [], x, h, L, _, hfr, _, _ => by
+    have h0 : next0 s x = none := h
+    simp only [predOf] at L
+    refine ⟨L.predNext, L.newOk, ?_⟩
+    show next0 s' new = none
+    rw [L.newNext, h0]
+  | e :: es, i :: ids, x, h, L, hk, hfr, hnd, hM => by
+    obtain ⟨h1, hi, h2⟩ := h
+    have hek : e.key ≠ e'.key := hk e (by simp)
+    rw [insertEntry_walk]
+    simp only [insIds, predOf] at L ⊢
+    have hxi : x ∉ i :: ids := (List.nodup_cons.1 hnd).1
+    by_cases hlt : Key.lt e.key e'.key = true
+    · simp only [hlt, if_true] at L ⊢
+      have hp := predOf_mem e'.key i ids es
+      refine ⟨?_, L.nodes i (hM i (by simp)) e (hfr i (by simp)) hi, ?_⟩
+      · rw [L.others x (hM x (by simp)) (fun he => hxi (he ▸ hp)) (hfr x (by simp)), h1]
+      · exact chain_insert h2 L (fun e he => hk e (List.mem_cons_of_mem _ he))
+          (fun j hj => hfr j (List.mem_cons_of_mem _ hj)) (List.nodup_cons.1 hnd).2
+          (fun j hj => hM j (List.mem_cons_of_mem _ hj))
+    · have hlt' : Key.lt e.key e'.key = false := by simpa using hlt
+      simp only [hlt', hek, Bool.false_eq_true, if_false] at L ⊢
+      refine ⟨L.predNext, L.newOk, ?_⟩
+      refine Chain.retarget2 (i := x) (s := s) ⟨h1, hi, h2⟩ L.newNext ?_ ?_
+      · intro j hj
+        exact L.others j (hM j (List.mem_cons_of_mem _ hj)) (fun he => hxi (he ▸ hj)) (hfr j (List.mem_cons_of_mem _ hj))
+      · intro j hj e0 hok
+        exact L.nodes j (hM j (List.mem_cons_of_mem _ hj)) e0 (hfr j (List.mem_cons_of_mem _ hj)) hok
+  | [], _ :: _, _, h, _, _, _, _, _ => by cases h
+  | _ :: _, [], _, h, _, _, _, _, _ => by cases h
 
 /-- a node rewritten in place (same forward array): replace, notifier add/del -/
 theorem chain_update {s s' : SL} {i : NodeId} {e e' : Entry} (hnext : ∀ j, next0 s' j = next0 s j)
@@ -194,6 +167,25 @@ theorem not_mem_delIds {k : Key} : ∀ {ids : List NodeId} {es : List Entry} {fo
       cases h
       simp only [hlt, if_false]
       exact (List.nodup_cons.1 hnd).1
+
+theorem mem_delIds_of_ne {k : Key} {j : NodeId} : ∀ {ids : List NodeId} {es : List Entry} {found e},
+    succOf k ids es = some (found, e) → j ∈ ids → j ≠ found → j ∈ delIds k ids es
+  | [], _, _, _, h, _, _ => by simp [succOf] at h
+  | _ :: _, [], _, _, h, _, _ => by simp [succOf] at h
+  | i :: ids, e0 :: es, found, e, h, hj, hne => by
+    simp only [succOf, delIds] at h ⊢
+    split at h
+    · next hlt =>
+      simp only [hlt, if_true]
+      rcases List.mem_cons.1 hj with rfl | hj
+      · simp
+      · exact List.mem_cons_of_mem _ (mem_delIds_of_ne h hj hne)
+    · next hlt =>
+      cases h
+      simp only [hlt, if_false]
+      rcases List.mem_cons.1 hj with rfl | hj
+      · exact absurd rfl hne
+      · exact hj
 
 /-- a node spliced out behind its predecessor -/
 theorem chain_erase {s s' : SL} {k : Key} {found : NodeId} {e : Entry} (hk : e.key = k) :
